@@ -168,6 +168,17 @@ fn main() {
         for k in picks {
             run_case(&mut rec, &json!({"d": d, "by": [offsets[k].0, offsets[k].1]}));
         }
+        // "origin alignment": the offset that moves the bounding box's corner onto (0, 0) / (-1, 0) / (0, -1) / (-1, -1)
+        // (code that treats the coordinate 0 specially - empty ranges 0..0, sign tests - shows when a drawable
+        // touches the origin, which fixed offsets never arrange)
+        if th || n % 3 == 0 {
+            if let Ok(bb) = catch(|| bbox_desc::<C>(d)) {
+                let delta = [(0, 0), (-1, 0), (0, -1), (-1, -1)][(n / 3) % 4];
+                if bb.top_left.x.abs() < 100_000 && bb.top_left.y.abs() < 100_000 {
+                    run_case(&mut rec, &json!({"d": d, "by": [delta.0 - bb.top_left.x, delta.1 - bb.top_left.y]}));
+                }
+            }
+        }
     }
     // thick triangles and polylines: all vertex triples of a grid x widths x offsets crossing the axes
     let g: i32 = if th { 6 } else { 5 };
